@@ -407,9 +407,12 @@ func runUtxo(seed uint64, n int, outDir string, replay string) {
 				var outs types.TxOuts
 				data := []byte(nil)
 				mode := rc.Intn(100) // 0..59 plain, 60..74 with foreign outputs, 75..84 conversion, 85..92 wrapping, rest odd
-				alterAfterSigning := adversarial == 18 || (adversarial >= 30 && adversarial < 33)
-				if alterAfterSigning && rc.Chance(60) {
+				alterAfterSigning := adversarial == 18 || (adversarial >= 30 && adversarial < 38)
+				if alterAfterSigning && rc.Chance(70) {
 					mode = 75 + rc.Intn(18) // alterations of the data of conversions and wrappings too
+					if rc.Chance(60) {
+						mode = 75 + rc.Intn(10) // conversions: the longest data (slip + refund address)
+					}
 				}
 				budget := new(big.Int).Set(totalIn)
 				feeTarget := new(big.Int).Div(totalIn, big.NewInt(int64(2+rc.Intn(20))))
@@ -535,7 +538,7 @@ func runUtxo(seed uint64, n int, outDir string, replay string) {
 					outs2 := append(types.TxOuts(nil), outs...)
 					data2 := append([]byte(nil), data...)
 					kind := rc.Intn(4)
-					if len(data2) > 0 && rc.Chance(60) {
+					if len(data2) > 0 && rc.Chance(80) {
 						kind = 4
 					}
 					switch kind {
@@ -553,8 +556,8 @@ func runUtxo(seed uint64, n int, outDir string, replay string) {
 						outs2[i].Address = append([]byte(nil), outs2[i].Address...)
 						outs2[i].Address[len(outs2[i].Address)-1] ^= 0x10
 					case 4:
-						i := len(data2) - 1 - rc.Intn(min(3, len(data2)))
-						if rc.Chance(30) {
+						i := len(data2) - 1 - rc.Intn(min(2, len(data2)))
+						if rc.Chance(25) {
 							i = rc.Intn(len(data2))
 						}
 						if i < 2 || i > 3 { // bytes 2 and 3 of a refund / owner address carry its zone and ledger: keep them
